@@ -82,8 +82,12 @@ Poke(f, j, w, x) ==
 
 (* store w bytes; `buffered`: goes to the store buffer when the address is shared *)
 RoErr == "store to an object that must not be written"
+(* Every 64-bit pattern is representable, so a bad value only ever comes from a read that touched
+   a byte outside every object of the program and the thread's own stack (RdB = -1): the code
+   under test accessed more than the object - a verdict, not a limit of the interpreter.          *)
+WildErr == "access to a byte outside every object"
 WrMem(M, a, w, x, buffered) ==
-  IF x.bad THEN Fail(M, "range: stored value not representable")
+  IF x.bad THEN Fail(M, WildErr)
   ELSE IF \E q \in M.ro : q >= a /\ q < a + w THEN Fail(M, RoErr)       \* Case.ro: e.g. the `expected` object of a
                                                                         \* compare-exchange that can only succeed
   ELSE IF Shared(M, a) /\ Shared(M, a + w - 1) THEN
@@ -91,7 +95,9 @@ WrMem(M, a, w, x, buffered) ==
        ELSE [M EXCEPT !.mem = Poke(@, a, w, x)]
   ELSE IF InStack(M.T, a) /\ InStack(M.T, a + w - 1) THEN
        [M EXCEPT !.T.stk = Poke(@, a - StackBase(M.T.id) + 1, w, x)]
-  ELSE Fail(M, "wild store address")
+  ELSE IF a >= StackBase(M.T.id) - 50000 /\ a < StackBase(M.T.id) + 50000
+       THEN Fail(M, "stack: store outside the modelled frame")             \* a limit of the model (Case.ss), not a verdict
+  ELSE Fail(M, WildErr)
 
 (* --------------------------------------------------------- registers ---- *)
 RdReg(T, r, w) ==
@@ -101,7 +107,7 @@ RdReg(T, r, w) ==
   ELSE Val(T.r[r] % 256, FALSE)
 
 WrReg(M, r, w, x) ==
-  IF x.bad THEN Fail(M, "range: register value not representable")
+  IF x.bad THEN Fail(M, WildErr)
   ELSE IF w = 8 THEN [M EXCEPT !.T.r[r] = x.v, !.T.h[r] = x.h]
   ELSE IF w = 4 THEN [M EXCEPT !.T.r[r] = x.v, !.T.h[r] = 0]             \* a 32-bit write zeroes bits 32..63
   ELSE IF w = 2 THEN [M EXCEPT !.T.r[r] = (@ - (@ % 65536)) + (x.v % 65536)]
@@ -205,7 +211,7 @@ Exec(M, i) ==
     [] i.op = "movx" ->
          LET x == RdOp(M, i.a, i.sw)
              n == IF i.sx = 1 THEN Sx(i.sw, Num(i.sw, x)) ELSE Num(i.sw, x)
-         IN IF x.bad THEN Fail(M, "range: load") ELSE
+         IN IF x.bad THEN Fail(M, WildErr) ELSE
             IF i.sx = 0 /\ i.sw = 4 THEN Fail(M, "movx: unsupported zero-extension") ELSE
             Adv(WrReg(M, i.b.r, i.w, Val(n, FALSE)))
     [] i.op = "lea" -> Adv(WrReg(M, i.b.r, i.w, Val(EA(T, i.a), FALSE)))
@@ -260,7 +266,7 @@ Exec(M, i) ==
             source, ZF = 1; else load the destination into rax, ZF = 0.                    *)
          LET cur == RdOp(M, i.b, i.w)
              acc == RdReg(T, "rax", i.w)
-         IN IF cur.bad THEN Fail(M, "range: cmpxchg")
+         IN IF cur.bad THEN Fail(M, WildErr)
             ELSE IF Same(i.w, cur, acc)
             THEN Adv(Flags(WrOp(M, i.b, i.w, RdOp(M, i.a, i.w), TSO /\ i.lock = 0), TRUE, FALSE, FALSE, FALSE))
             ELSE LET M2 == IF i.lock = 1 THEN M ELSE WrOp(M, i.b, i.w, cur, TSO)   \* an unlocked cmpxchg writes the old value back
